@@ -2,16 +2,17 @@
     Only statements closed by [exact]; proofs live in Obs/*Lemmas.v. *)
 From Coq Require Import Ascii String.
 From SV Require Import Obs.MetricSpec Obs.ObsCases Obs.TableLemmas Obs.JsonLemmas Obs.PromLemmas.
-From SV Require Import Obs.TableToday.   (* today's defects; goes away with the F10/F11 fixes *)
 
 (** * The metric table translated from format.rs (regenerated on every run) *)
 
-(** Every row outside the two recorded defect classes is right: the unit in the
-    metric's name is the unit of every value published under it, and a help
-    text promising a truth value goes with the true-as-1 encoding. *)
-Theorem C19_table_ok : forall m,
-  In m metric_table -> row_kf m = 0 -> row_ok m = true.
-Proof. exact table_ok_except_known. Qed.
+(** EVERY row is right, no exemption: the unit in the metric's name is the unit
+    of every value published under it, and a help text promising a truth value
+    goes with the true-as-1 encoding. *)
+Theorem C19_table_ok : forall m, In m metric_table -> row_ok m = true.
+Proof. exact table_ok. Qed.
+
+Theorem C19_format_bool_ok : bool_enc_true = 1 /\ bool_enc_false = 0.
+Proof. exact format_bool_ok. Qed.
 
 Theorem C19_table_sources_classified : forall m src,
   In m metric_table -> In src (m_src m) -> src_unit src <> None.
@@ -68,9 +69,8 @@ Proof. exact content_length_ok. Qed.
 
 (** Non-vacuity: a slave state with a Duration whose bits exceed 64 bits, a
     path trace, a P2P port and an absent UTC offset is well formed, its tokens
-    are tokens, it renders, its JSON text round-trips, and today's table makes
-    the oracle reject the rendered response with exactly the findings F10 + F11
-    (mask 3). *)
+    are tokens, it renders, its JSON text round-trips, and the oracle accepts the rendered
+    response (no finding). *)
 Example C19_nonvacuous :
   wf_state ex_state = true /\ toks_ok ex_toks = true
   /\ (match render ex_state ex_toks with
@@ -78,28 +78,9 @@ Example C19_nonvacuous :
                   | Some h => match parse_expo (h_body h) with Some ls => (26 <=? length ls)%nat | None => false end
                   | None => false end
       | None => false end) = true
-  /\ match parse (print (to_json ex_state)) with Some v => of_json v | None => None end = Some ex_state.
+  /\ match parse (print (to_json ex_state)) with Some v => of_json v | None => None end = Some ex_state
+  /\ (match respond ex_state ex_toks with
+      | Some r => filter (fun x => negb (x =? -1))
+                         (response_findings ex_state (print (to_json ex_state)) r)
+      | None => [0] end) = [].
 Proof. vm_compute. repeat split; reflexivity. Qed.
-
-(** * ---- TODAY'S CODE: refutations behind the known findings F10 / F11 ----
-    (delete this block and Obs/TableToday.v with the corresponding fix commits) *)
-
-(** Today's table: the unrestricted statement is refuted by exactly these rows
-    (class 2 = F11, class 1 = F10). *)
-Theorem C19_table_refuted :
-  defective_rows =
-    [("offset_from_master", 2); ("mean_delay", 2); ("time_traceable", 1);
-     ("frequency_traceable", 1); ("ptp_timescale", 1); ("path_trace_enable", 1)]%string.
-Proof. exact table_all_rows_ok_refuted. Qed.
-
-Theorem C19_format_bool_refuted : bool_enc_true = 0 /\ bool_enc_false = 1.
-Proof. exact format_bool_refuted. Qed.
-
-(** On today's table the oracle rejects the response rendered for [ex_state] with
-    exactly the findings F11 (code 2: offset_from_master, mean_delay) and F10
-    (code 1: the four booleans); -1 = sample accepted. *)
-Theorem C19_today_findings :
-  (match render ex_state ex_toks with
-   | Some r => response_findings ex_state (print (to_json ex_state)) r | None => [] end)
-  = [-1; -1; -1; -1; -1; -1; -1; -1; 2; 2; -1; -1; -1; -1; -1; -1; 1; 1; 1; -1; 1; -1; -1; -1; -1; -1].
-Proof. exact today_findings. Qed.
